@@ -227,10 +227,6 @@ func (smi *SegmentMicroIndex) readCmis(blocksToLoad map[uint16]map[string]bool,
 		if cname == config.GetTimeStampKey() || cname == "_type" || cname == "_index" {
 			continue
 		}
-		if cname == "" {
-			return fmt.Errorf("readCmis: empty colname for segkey: %v", smi.SegmentKey)
-		}
-
 		fName := fmt.Sprintf("%v_%v.cmi", smi.SegmentKey, xxhash.Sum64String(cname))
 		bulkDownloadFiles[fName] = cname
 	}
